@@ -62,6 +62,25 @@ def repo_state():
             'worktree_diff_sha1': hashlib.sha1(diff.encode()).hexdigest() if diff else None}
 
 
+def private_workdir(prop):
+    """scratch directory private to this invocation (concurrent runs of the same check against
+    different trees must not share files); directories older than 6 hours are swept"""
+    import shutil
+    base = os.path.join(WORK, prop)
+    os.makedirs(base, exist_ok=True)
+    now = time.time()
+    for d in os.listdir(base):
+        p = os.path.join(base, d)
+        try:
+            if now - os.path.getmtime(p) > 6 * 3600:
+                shutil.rmtree(p) if os.path.isdir(p) else os.remove(p)
+        except OSError:
+            pass
+    out = os.path.join(base, 'run-%d-%d' % (os.getpid(), int(now)))
+    os.makedirs(out, exist_ok=True)
+    return out
+
+
 def seed_from_env(default=0):
     try:
         return int(os.environ.get('VERIF_SEED', default))
@@ -124,8 +143,7 @@ def run_sharded(prop, tier, seed, ncells, timeout_s, nshards=None, extra_env=Non
     """Run `python -m vf.run --worker prop tier seed i n` for i in range(n), 16 at a time.
     Each worker writes WORK/<prop>/<tier>-<i>.json.  Returns (results, worker_meta)."""
     nshards = nshards or min(16, max(1, ncells))
-    outdir = os.path.join(WORK, prop)
-    os.makedirs(outdir, exist_ok=True)
+    outdir = private_workdir(prop)
     env = dict(os.environ)
     env['VERIF_SEED'] = str(seed)
     env['VERIF_REPO'] = repo_path()
@@ -223,7 +241,7 @@ def finish(prop, tier, seed, results, t0, rule, level_note_assumptions, min_held
         if st in (HELD, KNOWN) and (nontrivial is None or nontrivial(r)):
             distinct.add(case_key(r['case']))
     # replays
-    rdir = os.path.join(VERIF, 'replay', prop)
+    rdir = os.path.join(VERIF, 'replay' if repo_path() == '/repo' else os.path.join('.work', 'replay-other-trees'), prop)
     lines = []
     for key, rs in sorted(known_keys.items()):
         lines.append('KNOWN-FINDING: property=%s %s: %s (%d cases this run, e.g. %s)' % (
@@ -275,8 +293,11 @@ def finish(prop, tier, seed, results, t0, rule, level_note_assumptions, min_held
     ev = {'property_id': prop, 'tier': tier, 'seed': seed, 'level': 'exploration', 'coverage': cov,
           'assumptions': level_note_assumptions, 'wall_s': round(wall, 2),
           'violations': counts[VIOLATED]}
-    os.makedirs(os.path.join(VERIF, 'evidence'), exist_ok=True)
-    with open(os.path.join(VERIF, 'evidence', prop + '.json'), 'w') as f:
+    # evidence under /verif/evidence only ever describes /repo itself; runs against a scratch tree
+    # (mutation testing, negative controls) write theirs elsewhere
+    evdir = os.path.join(VERIF, 'evidence') if repo_path() == '/repo' else os.path.join(WORK, 'evidence-other-trees')
+    os.makedirs(evdir, exist_ok=True)
+    with open(os.path.join(evdir, prop + '.json'), 'w') as f:
         json.dump(ev, f, indent=1, default=str)
     for l in lines:
         print(l)
